@@ -1055,7 +1055,7 @@ func (s *Sim) fillCode(a *Action, bs *BState, f map[string]string, kind string) 
 		case kind == "totp":
 			if sub != nil {
 				if u := s.W.Store.Peek(sub.PID); u != nil && u.TOTPSecretKey != "" {
-					a.Secret = TOTPNow(u.TOTPSecretKey)
+					a.Secret = TOTPAt(u.TOTPSecretKey, []int{0, 0, 0, -1, 1}[s.R.Intn(5)])
 					break
 				}
 			}
@@ -1104,7 +1104,7 @@ func (s *Sim) fillCode(a *Action, bs *BState, f map[string]string, kind string) 
 		a.Resolved, a.Secret = "wrong", "000004"
 		if sub != nil {
 			if u := s.W.Store.Peek(sub.PID); u != nil && u.TOTPSecretKey != "" {
-				a.Resolved, a.Secret = "stale", TOTPFar(u.TOTPSecretKey)
+				a.Resolved, a.Secret = "stale", TOTPFar(u.TOTPSecretKey, s.R)
 			}
 		}
 	case "sessionsecret": // whatever sms_secret the session holds (an attacker cannot read it; used
